@@ -44,6 +44,8 @@ fn main() {
         "C19" => props::c19::run(&a),
         "C17" => props::c17::run(&a),
         "C09" => props::c09::run(&a),
+        "C11" => props::c11::run(&a),
+        "C12" => props::c12::run(&a),
         _ => { eprintln!("unknown property {}", prop); std::process::exit(2); }
     }
 }
